@@ -137,10 +137,10 @@ func init() {
 		}
 		var pairs []nm
 		type cas struct {
-			t    int
-			np   int
-			v1   int
-			v2   int
+			t  int
+			np int
+			v1 int
+			v2 int
 		}
 		nv := int64(len(vals))
 		sizeOf := func() int64 {
@@ -302,9 +302,11 @@ func init() {
 		}
 		empty := &vf.Family{
 			Name: "empty-map", InProc: true,
-			Bounds:   fmt.Sprintf("%d sources (some starting with their own ';; $...' comment lines) transported with an empty and with a nil placeholder map", len(emptySrcs)),
-			N:        func(string) int64 { return int64(len(emptySrcs)) * 2 },
-			Describe: func(i int64) string { return fmt.Sprintf("%q with %s map", emptySrcs[i/2].src, []string{"an empty", "a nil"}[i%2]) },
+			Bounds: fmt.Sprintf("%d sources (some starting with their own ';; $...' comment lines) transported with an empty and with a nil placeholder map", len(emptySrcs)),
+			N:      func(string) int64 { return int64(len(emptySrcs)) * 2 },
+			Describe: func(i int64) string {
+				return fmt.Sprintf("%q with %s map", emptySrcs[i/2].src, []string{"an empty", "a nil"}[i%2])
+			},
 			Run: func(i int64, r *vf.Rec) {
 				c := emptySrcs[i/2]
 				m := map[string]types.MalType{}
@@ -334,9 +336,9 @@ func init() {
 		}
 		return &vf.Check{
 			ID: "C15", Level: "model_checking",
-			Rule: "every (template, name pair, value assignment) of the bounded space: the expected AST is the template with placeholder leaves replaced by the values (computed on the model ADT, no second reader); READWithPreamble(AddPreamble(src, m)) for every preamble line order, and Read_str(src, m), must be identical to it; every case is non-trivial",
+			Rule:        "every (template, name pair, value assignment) of the bounded space: the expected AST is the template with placeholder leaves replaced by the values (computed on the model ADT, no second reader); READWithPreamble(AddPreamble(src, m)) for every preamble line order, and Read_str(src, m), must be identical to it; every case is non-trivial",
 			Assumptions: []string{"names over letters, digits, '-' and '_'; values are data values that C06 shows readable (NUL excluded: C06 known finding)", "a source may start with its own ';; $...' comment lines: AddPreamble separates them from the preamble by a blank line"},
-			Families: []*vf.Family{fam, empty},
+			Families:    []*vf.Family{fam, empty},
 		}
 	})
 }
